@@ -484,7 +484,7 @@ XSD_11_BUILTIN_TYPES: tuple[dict[str, Any], ...] = XSD_COMMON_BUILTIN_TYPES + (
     {
         'name': nm.XSD_DATE_TIME_STAMP,
         'datatype': datatypes.DateTimeStamp,
-        'python_type': datatypes.DateTimeStamp,
+        'python_type': (datatypes.DateTimeStamp, datatypes.DateTime),
         'base_type': nm.XSD_DATETIME,
         'to_python': datatypes.DateTime.fromstring,
         'facets': [Element(nm.XSD_EXPLICIT_TIMEZONE, value='required')],
